@@ -53,7 +53,9 @@ CANDIDATES = ['0.9', '1.0', '1.0.0', '1.0.1', '1.7', '1.7.post1', '1.7.1', '1.7r
 BAD_PREDICATES = ['', '>', '1.0', '>= ', '=> 1.0', '>=1.0,,<2', '~=1.0', '>=1.0 <2.0', '>=abc',
                   '>=1.0,', ',>=1.0', '= 1.0', '>=1.0;<2', '< 1 . 0']
 BAD_VERSIONS = ['x', '1.x', '1.2.x3', '1..2', '', '1.2.', '.1', '1.2beta', '1.2rc', 'a.b.c',
-                '1,2', '1.2-3', '1.2a1b']
+                '1,2', '1.2-3', '1.2a1b',
+                # a pre-release marker on a component that is not the last one
+                '1.2rc1.3', '1a1.2', '1.0b2.0', '1rc1.0.0', '1.2alpha3.4', '1beta1.2rc3']
 
 
 def _tuple_case(vals, acc):
